@@ -2,6 +2,7 @@ import KitProofs.Lemmas.CoalescingWindow
 import KitProofs.Lemmas.CoalescingProgress
 import KitProofs.Lemmas.CoalescingSim
 import KitProofs.Lemmas.CoalescingTimeline
+import KitProofs.Lemmas.CoalescingUrgent
 /-!
 Property C09 — coalescing rate limiter (`events/ratelimiting/coalescing.go`).
 
@@ -215,6 +216,40 @@ theorem first_after_idle_forced {cfg : Config} (hv : cfg.valid) {s s1 : State} (
       simp [State.running, this] at hr
   exact first_after_idle_forced_aux hidle.1 hidle.2.1 hidle.2.2.1 hidle.2.2.2.1 hidle.2.2.2.2 hnc hcas hadd
 
+/-- What "idle period" means operationally: at a quiescent point of a running limiter, *not idle*
+means exactly that a window is open whose end is ahead, i.e. an `Add`'s token was handled less
+than one window length (`cur ≥ InitialDelay`) ago — at `armedAt`. So an `Add` that is not
+signalled at once always comes less than `cur` after the limiter last handled an `Add`; "idle
+period" = no token handled for a full window. (The late-token window below is such a window: the
+late token was handled at `armedAt`, after the expiry that signalled its `Add`.) -/
+theorem not_idle_means_recent_token {cfg : Config} (hv : cfg.valid) {s : State} (h : Reach cfg s)
+    (hq : Quiescent cfg s) (hrun : s.running = true) (hcl : s.closed = false) (hni : ¬ Idle s) :
+    ∃ d, s.timer = some d ∧ s.now < d ∧ d = s.armedAt + s.cur ∧ s.armedAt ≤ s.now := by
+  have hi := inv_reach hv s h
+  have hsel : s.loop = .sel := by
+    rcases running_cases hrun with hl | hl
+    · have := hq .top rfl; simp [step, hl] at this
+    · exact hl
+  have htok : s.tokens = 0 := by
+    rcases Nat.eq_zero_or_pos s.tokens with h0 | h0
+    · exact h0
+    · have := hq .deliver rfl; simp [step, hsel, h0] at this
+  cases htm : s.timer with
+  | none =>
+    exfalso
+    have hp0 : s.pending = 0 := by
+      rcases hi.lost with hc | hc
+      · simp [hcl] at hc
+      · have := hc htm; omega
+    exact hni ⟨htm, htok, hp0, hrun, hcl⟩
+  | some d =>
+    have hd : s.now < d := by
+      rcases Nat.lt_or_ge s.now d with hlt | hge
+      · exact hlt
+      · have := hq .expire rfl; simp [step, htm, hsel, hge] at this
+    obtain ⟨a, b⟩ := hi.armed d htm
+    exact ⟨d, rfl, hd, a, b⟩
+
 /-- A window opened by a token that lost the race against its own window's expiry (the expiry
 already signalled its `Add`, so nothing is pending): it signals nothing when opened and nothing
 when it ends — the state is not idle, and an `Add` arriving in it waits for the (extended) window. -/
@@ -333,6 +368,133 @@ theorem deadline_bound {cfg : Config} {s s' : State} (hopen : s.timer.isSome = t
 example : ((exec demo0 (init demo0) [.runCall, .run, .top, .add, .deliver, .add, .top, .advance 30]).bind fun s =>
     (step demo0 s .deliver).map fun s' =>
       (s.timer.isSome, capReached demo0 s, s.pending, s'.timer)) = some (true, false, 1, some 230) := by
+  decide +kernel
+
+/-! ### universal timing: every urgent execution
+
+The statements `no_add_lost`, `cap_fires_now`, `deadline_bound`, `first_after_idle_immediate`,
+`close_returns` above are ∃-path statements (a continuation reaching the signal exists). The
+theorems of this section quantify over EVERY execution: the limiter is never quiescent with an
+overdue pending `Add` or with the cap reached, so in every execution in which the limiter's own
+goroutines move before the clock advances further (`UrgentExec` — the harness's settle
+discipline; the Go scheduler's latency is what the premise abstracts), the clock cannot pass a
+pending `Add`'s window end, nor move at all while the cap is reached, without the signal. Any cap,
+any consumer speed, any number of `Add` callers, `Close`/cancel anywhere. -/
+
+/-- Never quiescent with an overdue pending `Add`: running, not closed, something pending and no
+window end in the future ⇒ the loop head, a token delivery or the expiry is enabled. -/
+theorem no_quiescent_overdue {cfg : Config} (hv : cfg.valid) {s : State} (h : Reach cfg s)
+    (hrun : s.running = true) (hcl : s.closed = false) (hp : 0 < s.pending)
+    (hdue : ∀ d, s.timer = some d → d ≤ s.now) :
+    ¬ Quiescent cfg s ∧
+    ((s.loop = .top ∧ (step cfg s .top).isSome = true) ∨
+     (s.loop = .sel ∧ 0 < s.tokens ∧ (step cfg s .deliver).isSome = true) ∨
+     (s.loop = .sel ∧ (step cfg s .expire).isSome = true)) := by
+  have hnq := not_quiescent_overdue (inv_reach hv s h) hrun hcl hp hdue
+  refine ⟨fun hq => ?_, hnq⟩
+  rcases hnq with ⟨_, h⟩ | ⟨_, _, h⟩ | ⟨_, h⟩
+  · simp [hq .top rfl] at h
+  · simp [hq .deliver rfl] at h
+  · simp [hq .expire rfl] at h
+
+/-- In EVERY urgent execution from a reachable state `p` with `Add`s pending in an open window
+(end `dp = armedAt + cur`, i.e. the last token was handled at `t = armedAt`): whenever the clock is
+about to advance (from the state `q`, limiter still running and not closed), those `Add`s have been
+signalled, or a window is armed whose end is still ahead — and once the clock has reached `dp`
+that can only be a later window, opened or extended by a token handled after `t`. -/
+theorem every_urgent_execution_signals_by_deadline {cfg : Config} (hv : cfg.valid)
+    {p s' : State} {ls1 ls2 : List Label} {t2 dp : Nat} (hp : Reach cfg p)
+    (hwin : p.timer = some dp) (hpend : 0 < p.pending)
+    (hu : UrgentExec cfg p (ls1 ++ .advance t2 :: ls2) s') :
+    dp = p.armedAt + p.cur ∧
+    ∃ q, exec cfg p ls1 = some q ∧ Quiescent cfg q ∧
+      (q.running = true → q.closed = false →
+        p.fires < q.fires ∨
+        ∃ d, q.timer = some d ∧ q.now < d ∧ 0 < q.pending ∧ (dp ≤ q.now → dp < d)) := by
+  refine ⟨((inv_reach hv p hp).armed dp hwin).1, ?_⟩
+  obtain ⟨q, e, hq, _⟩ := hu.advance_from_quiescent
+  refine ⟨q, e, hq, fun hrun hcl => ?_⟩
+  obtain ⟨f1, f2⟩ := fires_pending_exec ls1 e
+  rcases Nat.lt_or_ge p.fires q.fires with hlt | hge
+  · exact Or.inl hlt
+  · right
+    have hqp : 0 < q.pending := by have := f2 (by omega); omega
+    have hqi := inv_reach hv q (reach_exec ls1 hp e)
+    obtain ⟨d, hd, hnd⟩ := quiescent_pending_has_future_deadline hqi hq hrun hcl hqp
+    exact ⟨d, hd, hnd, hqp, fun h => by omega⟩
+
+/-- The cap, universally: with `MaxPendingEvents = m` reached the limiter is not quiescent — a token
+is in flight and its delivery fires at the current clock value — so in every urgent execution the
+clock does not move before the signal: at the next clock advance (limiter running, not closed)
+the signal has been started, `pending < m`, and if no advance happened in between, at the very
+clock value at which the cap was reached. -/
+theorem every_urgent_execution_fires_at_cap {cfg : Config} (hv : cfg.valid)
+    {p s' : State} {ls1 ls2 : List Label} {t2 m : Nat} (hp : Reach cfg p)
+    (hcap : cfg.cap = some m) (hm : m ≤ p.pending) (hrunp : p.running = true) (hclp : p.closed = false)
+    (hu : UrgentExec cfg p (ls1 ++ .advance t2 :: ls2) s') :
+    ¬ Quiescent cfg p ∧ 0 < p.tokens ∧
+    ∃ q, exec cfg p ls1 = some q ∧ Quiescent cfg q ∧
+      (q.running = true → q.closed = false → p.fires < q.fires ∧ q.pending < m) ∧
+      ((∀ l ∈ ls1, ∀ t, l ≠ .advance t) → q.now = p.now) := by
+  have hpi := inv_reach hv p hp
+  obtain ⟨htok, hen⟩ := not_quiescent_at_cap hv hpi hcap hrunp hclp hm
+  refine ⟨fun hq => ?_, htok, ?_⟩
+  · rcases hen with ⟨_, h⟩ | ⟨_, s1, h, _⟩
+    · simp [hq .top rfl] at h
+    · simp [hq .deliver rfl] at h
+  obtain ⟨q, e, hq, _⟩ := hu.advance_from_quiescent
+  refine ⟨q, e, hq, fun hrun hcl => ?_, fun hna => now_exec ls1 e hna⟩
+  have hqi := inv_reach hv q (reach_exec ls1 hp e)
+  have hlt := quiescent_below_cap hv hqi hcap hq hrun hcl
+  obtain ⟨f1, f2⟩ := fires_pending_exec ls1 e
+  refine ⟨?_, hlt⟩
+  rcases Nat.lt_or_ge p.fires q.fires with h | h
+  · exact h
+  · have := f2 (by omega); omega
+
+/-- Premises satisfiable: from a state with an `Add` pending in a window ending at 300, an urgent
+execution in which the clock jumps to 350 (from a quiescent state) and can move on to 400 only
+after the expiry has signalled; the same list without the expiry is not urgent. -/
+example :
+    ((exec demo0 (init demo0) [.runCall, .run, .top, .add, .deliver, .top, .consume, .advance 100, .add, .deliver, .top]).map
+      fun p => (p.timer, p.pending, urgentOk demo0 p [.advance 350, .expire, .top, .consume, .advance 400],
+                urgentOk demo0 p [.advance 350, .advance 400])) = some (some 300, 1, true, false) := by
+  decide +kernel
+
+/-! ### a window with a cap: one signal at its end, cap signals exactly at the cap -/
+
+/-- Any cap. Inside an open window (no expiry handled) the only signals are cap signals: each is
+started by the delivery of a token that finds `pending ≥ MaxPendingEvents`, at that clock value,
+and covers everything pending; every other step leaves `fires` alone and does not lose a pending
+`Add`. -/
+theorem burst_capped_inside {cfg : Config} {s s' : State} {l : Label}
+    (hopen : s.timer.isSome = true) (hne : l ≠ .expire) (hst : step cfg s l = some s') :
+    s'.timer.isSome = true ∧
+    ((s'.fires = s.fires ∧ s.pending ≤ s'.pending) ∨
+     (l = .deliver ∧ capReached cfg s = true ∧ s'.fires = s.fires + 1 ∧ s'.pending = 0 ∧
+      s'.now = s.now)) :=
+  capped_window_step hopen hne hst
+
+/-- Any cap. Over a whole window: the signals started inside it are exactly the cap signals
+(`capFires` counts the deliveries that found the cap reached), the window stays open, and the expiry
+ending it adds one more signal iff something is pending then. With `cap = none` this is
+`burst_one_signal`. -/
+theorem burst_capped {cfg : Config} {s s' s'' : State} {ls : List Label}
+    (hopen : s.timer.isSome = true) (hrun : exec cfg s ls = some s') (hne : ∀ l ∈ ls, l ≠ .expire)
+    (hexp : step cfg s' .expire = some s'') :
+    s'.timer.isSome = true ∧ s'.fires = s.fires + capFires cfg s ls ∧
+    s''.fires = s.fires + capFires cfg s ls + (if 0 < s'.pending then 1 else 0) ∧
+    s''.timer = none ∧ s''.pending = 0 := by
+  obtain ⟨h1, h2⟩ := capped_window_exec ls hopen hrun hne
+  obtain ⟨e1, e2, e3⟩ := expire_effect hexp
+  exact ⟨h1, h2, by rw [e3, h2], e1, e2⟩
+
+example : ((exec demo (init demo) [.runCall, .run, .top, .add, .deliver, .top, .consume]).bind fun s =>
+    (exec demo s [.add, .deliver, .top, .add, .deliver, .top, .add, .deliver, .top, .advance 700, ]).bind fun s' =>
+    (step demo s' .expire).map fun s'' =>
+      decide (s.timer.isSome = true ∧ s.fires = 1 ∧
+        capFires demo s [.add, .deliver, .top, .add, .deliver, .top, .add, .deliver, .top, .advance 700] = 1 ∧
+        s'.fires = 2 ∧ s'.pending = 1 ∧ s''.fires = 3)) = some true := by
   decide +kernel
 
 /-! ### timelines: the signal times as an explicit function of the Add times -/
